@@ -43,6 +43,38 @@ def acyclic2(nodes):
 CFG = dbside.Cfg()
 
 
+def styled_lines(nodes):
+    """the lines of a graph whose nodes may carry a notation: "dbx" = None | "first" | "last" (a Dbxref attribute with
+    two values written with REPEATED KEYS, Dbxref=a;Dbxref=b, before or after the Parent attribute - enough of them in
+    the inspection window make 'repeated keys' the file's dialect) and "pform" = "comma" | "repeated" (Parent=a,b or
+    Parent=a;Parent=b).  Both notations are legal GFF3 and may be mixed in one file; nodes without these keys are
+    written as gen_db.graph_lines writes them."""
+    out = []
+    for i, x in enumerate(nodes):
+        parts = ["ID=%s" % x["id"]]
+        dbx = ["Dbxref=FB:%s" % x["id"], "Dbxref=GI:%s" % x["id"]]
+        if x.get("dbx") == "first":
+            parts += dbx
+        if x["parents"]:
+            if x.get("pform") == "repeated":
+                parts += ["Parent=%s" % p for p in x["parents"]]
+            else:
+                parts.append("Parent=%s" % ",".join(x["parents"]))
+        if x.get("dbx") == "last":
+            parts += dbx
+        out.append("\t".join([x["seqid"], "src", x["ftype"], str(x["start"]), str(x["end"]), ".", x["strand"], ".",
+                              ";".join(parts)]))
+    return out
+
+
+def rand_notation(r, nodes):
+    """mixed notation: most (or, sometimes, few) lines carry a repeated-key Dbxref; Parent lists mostly in the comma
+    form"""
+    pd = r.choice([0.9, 0.9, 0.75, 0.3])
+    return [dict(x, dbx=(r.choice(["first", "last"]) if r.random() < pd else None),
+                 pform=("repeated" if r.random() < 0.25 else "comma")) for x in nodes]
+
+
 def mk_case(scenario, lines, nodes, **kw):
     """a self-contained case: the lines in the order they are imported, the generator's node of every line, the
     configuration; scenario arguments in kw"""
@@ -178,6 +210,65 @@ def check_create_update(ctx, case, nodes, res, draw_extra=None):
         common.fail(res, case, "update_raised", "update raised %r" % ex, error=dbside.err_name(ex), observed=repr(ex))
 
 
+def draw_readd(r, nodes):
+    """a stored LEAF (no stored feature names it) that has parents, and other Parent values to file it under again:
+    earlier features of a shallower level, a dangling value, or none.  returns (victim id, new parents) or None"""
+    stored, lvl1, lvl2 = graph_oracle(nodes)
+    leaves = [x for x in nodes if x["parents"] and not lvl1.get(x["id"])]
+    if not leaves:
+        return None
+    x = r.choice(leaves)
+    cands = [y["id"] for y in nodes if y["level"] < x["level"] and y["id"] not in x["parents"]]
+    new = r.sample(cands, min(len(cands), r.choice([1, 1, 2]))) if cands else []
+    if r.random() < 0.2:
+        new.append("ghost7")
+    if r.random() < 0.15:
+        new = []
+    return x["id"], new
+
+
+def readd_nodes(case, nodes):
+    """(the victim's node, the nodes after the victim was deleted, the nodes after it was filed again under the other
+    Parent values, the line that files it again) - None when the victim is not a leaf of this input"""
+    stored, lvl1, lvl2 = graph_oracle(nodes)
+    v = [x for x in nodes if x["id"] == case["victim"]]
+    if len(v) != 1 or lvl1.get(case["victim"]):
+        return None
+    v = v[0]
+    without = [x for x in nodes if x is not v]
+    again = dict(v, parents=list(case["new_parents"]), dbx=None, pform="comma")
+    return v, without, without + [again], styled_lines([again])[0]
+
+
+def check_delete_readd(ctx, case, nodes, res, db=None):
+    """history: import, delete a leaf (by id or as Feature object), update() filing the same id again under other
+    Parent values.  After every step children()/parents() are the Parent graph of what is stored.  (Only leaves are
+    deleted: the level-2 rows that passed THROUGH a deleted inner feature are outside this property.)
+    returns (db, the line of the update) when the history went through"""
+    rn = readd_nodes(case, nodes)
+    if rn is None:
+        return None
+    v, without, after, line = rn
+    if not in_domain(after):
+        return None
+    cfg = dbside.Cfg.from_json(case["config"])
+    if db is None:
+        db, rep = import_lines(ctx, case["input"], cfg, "gd.gff3")
+        if db is None:
+            return None
+    try:
+        db.delete(db[v["id"]] if case["delete_by"] == "feature" else v["id"], make_backup=False)
+        check_db(db, without, res, dict(case, step="after delete"))
+        db.update(dbside.write_lines(os.path.join(ctx.scratch, "gd2.gff3"), [line]), make_backup=False,
+                  **cfg.update_kwargs())
+        check_db(db, after, res, dict(case, step="after update"))
+    except Exception as ex:
+        common.fail(res, case, "delete_update_raised", "delete + update raised %r" % ex, error=dbside.err_name(ex),
+                    observed=repr(ex))
+        return None
+    return db, line
+
+
 def check_iter(case, db, nodes, res):
     stored, lvl1, lvl2 = graph_oracle(nodes)
     for unit in db.iter_by_parent_childs(featuretype="gene"):
@@ -201,6 +292,9 @@ def judge(ctx, case):
     if sc == "create_update":
         check_create_update(ctx, dict(case), nodes, res)
         return res
+    if sc == "delete_readd":
+        check_delete_readd(ctx, case, nodes, res)
+        return res
     db, rep = import_lines(ctx, lines, cfg)
     if not check_created(case, db, rep, res):
         return res
@@ -223,19 +317,28 @@ def run(ctx):
     import gffutils
     res = common.Result("C02")
     r = ctx.rng("c02")
+    rs = ctx.rng("c02", "notation")
+    rd = ctx.rng("c02", "delete_readd")
     res.rule = ("GFF3 DAGs with unique IDs: depth <= 4, 0-3 Parent values per feature (shared children, repeated and "
                 "dangling Parent values), lines in every permutation (<= 6 lines) or random shuffles; children/parents at "
                 "level 1, 2, None for every stored id and two absent ids; featuretype/order_by/reverse arguments; "
-                "iter_by_parent_childs. non-trivial = distinct graph with >= 1 level-2 relation")
+                "iter_by_parent_childs; 40% of the graphs in mixed notation (repeated-key Dbxref on most lines, Parent "
+                "lists in the comma form or as repeated keys); history import -> delete a leaf -> update() filing it under "
+                "other Parent values. non-trivial = distinct graph with >= 1 level-2 relation")
     cmds, exp, tags = [], [], []
-    ngraphs = 150 if not ctx.thorough else 1000
+    ngraphs = 150 if not ctx.thorough else 900      # 900 graphs (was 1000): the thorough tier sits at its ~10 min budget
     cfg = CFG
     for gi in range(ngraphs):
         nodes = gen_db.rand_gff3_graph(r, n=r.choice([1, 2, 3, 4, 5, 6, 6, 8, 11, 15]))
         if not acyclic2(nodes):
             continue
         stored, lvl1, lvl2 = graph_oracle(nodes)
-        base_lines = gen_db.graph_lines(nodes)
+        mixed = rs.random() < 0.4
+        if mixed:
+            # both GFF3 notations of a multi-valued attribute in one file (repeated-key Dbxref, comma-form Parent)
+            nodes = rand_notation(rs, nodes)
+            res.count("mixed_notation")
+        base_lines = styled_lines(nodes)
         orders = gen_db.permutations_or_sample(r, list(range(len(nodes))), limit=120 if not ctx.thorough else 720,
                                                nsample=4)
         if len(nodes) > 4 and not ctx.thorough:
@@ -290,6 +393,24 @@ def run(ctx):
                                         onodes, res, draw_extra=lambda: r.random() < 0.5)
                 # iter_by_parent_childs
                 check_iter(mk_case("iter_by_parent_childs", lines, onodes), db, onodes, res)
+                if db.dialect["repeated keys"] and any(len(set(x["parents"])) > 1 and x.get("pform") != "repeated"
+                                                       for x in onodes):
+                    res.count("repeated_keys_dialect_with_comma_multiparent")
+                # history: delete a leaf, update() files the same id again under other Parent values (last use of db)
+                dr = draw_readd(rd, onodes) if gi % (2 if not ctx.thorough else 4) == 0 else None
+                if dr is not None:
+                    dcase = mk_case("delete_readd", lines, onodes, victim=dr[0], new_parents=dr[1],
+                                    delete_by=rd.choice(["id", "feature"]))
+                    done = check_delete_readd(ctx, dcase, onodes, res, db=db)
+                    res.count("delete_readd")
+                    if done is not None:
+                        cmds.append(dbside.cmd_create(["##gff-version 3"] + lines, cfg)); exp.append(rep)
+                        tags.append(("create_db (GFF3)", repr(lines)))
+                        cmds.append("delete " + enc_list([dr[0]])); exp.append("ok"); tags.append(("delete", repr((lines, dr[0]))))
+                        cmds.append(dbside.cmd_update([done[1]], cfg)); exp.append("ok")
+                        tags.append(("update", repr((lines, done[1]))))
+                        cmds.append("dump"); exp.append(dbside.dump(done[0]))
+                        tags.append(("tables after delete + update", repr((lines, dr[0], done[1]))))
     out = ctx.model(cmds)
     if out is not None:
         for c, m, e, (comp, inp) in zip(cmds, out, exp, tags):
